@@ -261,8 +261,13 @@ pub fn oci(max_name: usize, out: &mut Out) {
             for u in &urls {
                 for slash in ["", "/"] {
                     let url = format!("{u}{slash}");
-                    out.op(format!("# expect {}", oci_expect(&mt, &url)));
+                    let want = oci_expect(&mt, &url);
+                    out.op(format!("# expect {want}"));
                     out.search(mi, &url);
+                    // a sample of the URLs also goes through the example itself (hyper, AppRouter::handle)
+                    if k % 23 == 0 || k + extra_names.len() >= all_names.len() {
+                        out.op(format!("# http {m} {} {}", hex(url.as_bytes()), if want == "none" { "none" } else { "routed" }));
+                    }
                 }
             }
         }
